@@ -100,6 +100,78 @@ class Extract(Harness):
             yield 'grid-size', obs['size'] == (self.nlen - 1) * 8
 
 
+class ProbeSequence(Harness):
+    """real perform_test + ONE real key-exchange object (as HostKeyTest.run creates it) probing several host-key types in a row with well-formed replies:
+    what is recorded for each type comes from that type's reply only (no CA or size carried over from the previous probe)."""
+    prop, ob = PROP, 'O1'
+    width = 64
+
+    def __init__(self, kexname, order):
+        self.kexname, self.order = kexname, tuple(order)
+        self.name = 'probesequence-%s-%s' % (kexname, '+'.join(o.split('@')[0] for o in order))
+
+    def params(self):
+        return {'kexname': self.kexname, 'order': list(self.order)}
+
+    def blob(self, kt, tag):
+        if kt == 'ssh-rsa-cert-v01@openssh.com':
+            ca, _ = ca_blob('ssh-rsa', 513)
+            return S(kt.encode()) + S(zx.fresh_bytes('nonce' + tag, 4)) + S(mp_bytes(3, 'e' + tag)) + S(mp_bytes(385, 'n' + tag)) + cert_tail(ca)
+        if kt == 'ssh-ed25519-cert-v01@openssh.com':
+            ca, _ = ca_blob('ecdsa-sha2-nistp256', 32)
+            return S(kt.encode()) + S(zx.fresh_bytes('nonce' + tag, 4)) + S(mp_bytes(32, 'pk' + tag)) + cert_tail(ca)
+        if kt == 'ssh-ed25519':
+            return S(b'ssh-ed25519') + S(mp_bytes(32, 'pk' + tag))
+        if kt == 'ssh-rsa':
+            return S(b'ssh-rsa') + S(mp_bytes(3, 'e' + tag)) + S(mp_bytes(257, 'n' + tag))
+        raise ValueError(kt)
+
+    EXPECT = {'ssh-rsa-cert-v01@openssh.com': (3072, 'ssh-rsa', 4096), 'ssh-ed25519-cert-v01@openssh.com': (256, 'ecdsa-sha2-nistp256', 256),
+              'ssh-ed25519': (256, '', 0), 'ssh-rsa': (2048, '', 0)}
+
+    def inputs(self):
+        return {'blobs': {kt: self.blob(kt, str(i)) for i, kt in enumerate(self.order)}}
+
+    def run(self, M, inp):
+        OL.fresh_tables(M)
+        out = M.outputbuffer.OutputBuffer()
+        kex = make_kex(M, {'key': list(self.order)})
+        probe_order = [kt for kt in M.hostkeytest.HostKeyTest.HOST_KEY_TYPES if kt in self.order]
+        replies = [(31, S(inp['blobs'][kt]) + S(b'f') + S(b'sig')) for kt in probe_order]
+
+        class Sock(StubSock):
+            def read_packet(self_, sshv=2):
+                if self_.kexinits and len(self_.log) and self_.log[-1] == 'kexinit-read':
+                    self_.log.append('reply')
+                    return replies.pop(0) if replies else (-1, b'')
+                self_.log.append('kexinit-read')
+                return StubSock.read_packet(self_, sshv)
+
+            def write_byte(self_, v): return self_
+            def write_string(self_, v): return self_
+            def write_mpint2(self_, v): return self_
+            def write_int(self_, v): return self_
+            def send_packet(self_): return (0, None)
+        cls = {'curve25519': M.kexdh.KexCurve25519_SHA256, 'nistp256': M.kexdh.KexNISTP256, 'group14': M.kexdh.KexGroup14_SHA256}[self.kexname]
+        grp = cls(out)
+        r = guarded(M.hostkeytest.HostKeyTest.perform_test, out, Sock(), kex, 'x', grp, M.hostkeytest.HostKeyTest.HOST_KEY_TYPES)
+        if isinstance(r, Exc):
+            return {'exc': r}
+        hk = kex.host_keys()
+        return {'recorded': {k: [v['hostkey_size'], v['ca_key_type'], v['ca_key_size']] for k, v in hk.items()}}
+
+    def check(self, inp, obs):
+        if 'exc' in obs:
+            yield 'no-exception', False
+            return
+        rec = obs['recorded']
+        ok = True
+        for kt in self.order:
+            exp = list(self.EXPECT[kt])
+            ok = ok and kt in rec and rec[kt] == exp
+        yield 'each-type-recorded-from-its-own-reply', ok
+
+
 def adjust_unbounded():
     """P2Z: KexDH.__adjust_key_size for EVERY byte length m >= 0: result = 8m - (8 if m odd else 0); for a modulus of b bits with b % 16 == 0 encoded as an
     mpint with leading zero (m = b/8 + 1) the result is exactly b."""
@@ -406,6 +478,9 @@ def tasks(tier):
     if not q:
         for n in (129, 385, 513):
             T.append(Extract('ssh-rsa-cert', n, 'ssh-rsa', 257))
+    for kexname in ('curve25519', 'nistp256', 'group14'):
+        for order in (('ssh-rsa-cert-v01@openssh.com', 'ssh-ed25519'), ('ssh-ed25519-cert-v01@openssh.com', 'ssh-ed25519', 'ssh-rsa'), ('ssh-rsa', 'ssh-ed25519-cert-v01@openssh.com')):
+            T.append(ProbeSequence(kexname, order))
     T.append(adjust_unbounded)
     fam = ['ssh-rsa', 'rsa-sha2-256', 'rsa-sha2-512']
     for kts in ([('ssh-rsa',), ('rsa-sha2-512', 'ssh-rsa'), tuple(fam), ('rsa-sha2-256',), ('ssh-ed25519',), ('ssh-rsa', 'ssh-ed25519')] if q else
@@ -431,6 +506,8 @@ def harness_by_name(name, params):
     p = params
     if k == 'extract':
         return Extract(p['layout'], p['nlen'], p['ca'], p['calen'])
+    if k == 'probesequence':
+        return ProbeSequence(p['kexname'], p['order'])
     if k == 'thresholds':
         return Thresholds(p['keytypes'], p['ca_type'], p['nd'], p['ndca'])
     if k == 'reporting':
